@@ -225,6 +225,9 @@ func (x *Exec) callContract(st *State, callee *ssa.Function, ct *Contract, args 
 	saveOldAlloc := fr.oldAlloc
 	fr.oldAlloc = oldAlloc
 	for _, e := range ct.Ensures {
+		if strings.HasPrefix(e.Label, "ok.") {
+			continue // an internal assertion about the callee's success return (mentions its locals)
+		}
 		st.assume(ev.evalClause(e))
 	}
 	fr.oldAlloc = saveOldAlloc
@@ -530,7 +533,10 @@ func (x *Exec) rangeInit(st *State, in *ssa.Range, set func(ssa.Value, Val)) {
 	}
 	st.objs[o.ID] = o
 	set(in, Val{A: &Addr{ObjID: o.ID, T: in.X.Type()}, S: "@iter"})
-	st.top().vars[fmt.Sprintf("iter%d", len(st.top().vars))] = Val{}
+	if _, isMap := in.X.Type().Underlying().(*types.Map); isMap {
+		// `seen`: the ghost set of keys the iteration has produced so far
+		st.top().vars["seen"] = Val{S: "@addr", A: &Addr{ObjID: o.ID, Path: []int{1}}}
+	}
 }
 
 func (x *Exec) rangeNext(st *State, in *ssa.Next, set func(ssa.Value, Val)) {
@@ -563,7 +569,6 @@ func (x *Exec) rangeNext(st *State, in *ssa.Next, set func(ssa.Value, Val)) {
 	ns := st.fresh("seen", "(Array "+ks+" Bool)")
 	st.assume(fmt.Sprintf("(= %s (ite %s (store %s %s true) %s))", ns, ok, seen, key, seen))
 	o.Vals[1] = Val{S: o.Vals[1].S, T: ns}
-	st.top().vars["seen"] = Val{S: o.Vals[1].S, T: ns}
 	val := Val{S: vs, T: fmt.Sprintf("(select (select %s %s) %s)", v, m, key), GT: mt.Elem()}
 	_ = U
 	set(in, Val{Tup: []Val{{S: "Bool", T: ok}, {S: ks, T: key, GT: mt.Key()}, val}})
@@ -685,6 +690,18 @@ func (x *Exec) checkPost(st *State, rs []Val) {
 			if e.Label == "function" && x.ct.FunctionOf != "" {
 				// definitional: the spec function names this function's result; justified by the determinism check
 				continue
+			}
+			if strings.HasPrefix(e.Label, "ok.") {
+				// an assertion about the success return only (may mention locals that exist only there)
+				success := true
+				for _, r := range res {
+					if r.S == "Err" && r.T != "ErrNil" {
+						success = false
+					}
+				}
+				if !success {
+					continue
+				}
 			}
 			st.check(fmt.Sprintf("%s/post/%s", x.key, clauseName(e, i)), ev.evalClause(e), "postcondition")
 		}
